@@ -343,6 +343,9 @@ ALL_PROFILES = ["basic", "lossy", "reorder", "zwin", "pr", "wrap", "il", "tiny",
 def c01(ctx):
     files = transfer_family(ctx)
     files += xfer_traces(ctx, ["basic", "lossy", "reorder", "wrap", "il", "tiny", "zwin", "big"], 160, 4000)
+    # a fully reliable ordered stream next to a partially reliable one that abandons messages (fragmented reliable
+    # messages losing their last fragment once): the reliable stream must not notice
+    files += directed_traces(ctx, "prdir", 8, {"VF_FULL": "0" if ctx.quick else "1", "VF_ONLY": "relfrag"})
     if not ctx.quick:
         reasm_component(ctx, "C01")
     ctx.validate(files)
